@@ -91,12 +91,14 @@ def fiddler_from_diff(
 
   The body of the returned function has three sections:
 
-  * The first section creates variables for any new shared values that are
-    added by the diff (i.e., values in `diff.new_shared_values`).
-  * The second section creates variables to act as aliases for values in the
+  * The first section creates variables to act as aliases for values in the
     in the input `Config`.  This ensures that we can still reference those
     values even after we've made mutations to the `Config` that might make
     them unreachable from their original location.
+  * The second section creates variables for any new shared values that are
+    added by the diff (i.e., values in `diff.new_shared_values`), in the order
+    of `diff.new_shared_values` (a shared value may refer to an earlier one, or
+    to an alias).
   * The final section modifies the `Config` in-place, as described by
     `diff.changes`.  Changes are grouped by the parent object that they modify.
     This section contains one statement for each change.
@@ -191,11 +193,13 @@ def fiddler_from_diff(
       additional_converters=value_converters)
 
   body = []
+  # Aliases come first: they read the still unmodified config, and new shared
+  # values may refer to them.
+  body += _cst_for_moved_value_variables(param_name, moved_value_names,
+                                         pyval_to_cst)
   body += _cst_for_new_shared_value_variables(diff.new_shared_values,
                                               new_shared_value_names,
                                               pyval_to_cst)
-  body += _cst_for_moved_value_variables(param_name, moved_value_names,
-                                         pyval_to_cst)
   body += _cst_for_changes(diff, param_name, moved_value_names, pyval_to_cst)
 
   fiddler = _cst_for_fiddler(func_name, param_name, body,
@@ -233,7 +237,9 @@ def _cst_for_new_shared_value_variables(
     pyval_to_cst: PyValToCstFunc) -> List[cst.CSTNode]:
   """Returns a list of `CSTNode`s for creating new shared value variables."""
   statements = []
-  for value, name in sorted(zip(values, names), key=lambda item: item[1]):
+  # Keep the order of `diff.new_shared_values`: a shared value may refer to
+  # another one, which then has a smaller index.
+  for value, name in zip(values, names):
     statements.append(
         cst.Assign(
             targets=[cst.AssignTarget(target=cst.Name(name))],
